@@ -5,32 +5,63 @@
       filter, addRuleSet, updateRuleSet, deleteRuleSet, toRuleSetConfiguration
 
     The provider keeps no hashes: it relies on the client-go informer, whose
-    store decides between Add and Update, on the filter wrapper, and on the
-    object's generation.  The informer's dispatch (client-go tools/cache:
-    DeltaFIFO + processDeltas) and the filter wrapper are library code; they are
-    transcribed here as observed (DESIGN §7) because the decisions of the
-    provider are only reachable through them.  An event is what the API server's
-    watch delivers.  The rule set's source is "kubernetes:<namespace>:<UID>";
-    objects are identified by their UID (the driver uses one name per UID). *)
+    store (keyed by namespace/name) decides between Add and Update, on the filter
+    wrapper, and on the object's generation.  The informer's dispatch (client-go
+    tools/cache: Reflector, DeltaFIFO.Replace, processDeltas) and the filter wrapper
+    are library code; they are transcribed here as observed (DESIGN §7) because the
+    decisions of the provider are only reachable through them.  An event is what
+    the API server delivers: a watch event, or — after the watch broke — a new
+    list ("relist"), which the informer turns into updates/adds of the listed
+    objects followed by deletions of the stored objects that are not listed any
+    more; such a deletion hands the handlers a [cache.DeletedFinalStateUnknown]
+    tombstone instead of the object.  The rule set's source is
+    "kubernetes:<namespace>:<UID>": [Sid (k_uid o)].  Go panics are explicit. *)
 From HV Require Import Base.Prelude C18.Model.
 
 Record kobj := {
-  k_uid : nat;
+  k_name : nat;      (* namespace/name: the informer's key *)
+  k_uid : nat;       (* metadata.uid: the source id *)
   k_cls : bool;      (* spec.authClassName = the provider's auth class *)
   k_gen : nat;       (* metadata.generation *)
   k_cid : cid }.     (* spec.rules *)
 
 Inductive wtype := WAdded | WModified | WDeleted.
 
-Definition k8s_event := (wtype * kobj)%type.
+Inductive k8s_event :=
+| KWatch (t : wtype) (o : kobj)      (* a watch event *)
+| KRelist (l : list kobj).           (* the watch broke; this is what the new list returns *)
+
+(** what the informer hands to the handlers, one object at a time *)
+Inductive katom :=
+| AUpsert (o : kobj)                 (* Added / Modified / listed (Sync, Replaced) *)
+| ADelete (o : kobj)                 (* Deleted, with the object of the event *)
+| ATomb (name : nat).                (* stored object [name] is not listed any more: DeletedFinalStateUnknown *)
 
 (** the informer's store *)
 Definition kstore := nat -> option kobj.
 Definition ks_empty : kstore := fun _ => None.
-Definition ks_set (s : kstore) (u : nat) (v : option kobj) : kstore := fun w => if Nat.eqb w u then v else s w.
+Definition ks_set (s : kstore) (n : nat) (v : option kobj) : kstore := fun w => if Nat.eqb w n then v else s w.
+
+(** DeltaFIFO.Replace: the listed objects in list order, then the stored keys that are
+    not listed (client-go enumerates them in Go map order; here in key order over the
+    name universe [0..nn-1], the driver sorts the observed deletions accordingly) *)
+Definition relist_atoms (nn : nat) (s : kstore) (l : list kobj) : list katom :=
+  map AUpsert l ++
+  map ATomb (filter (fun n => match s n with Some _ => negb (existsb (fun o => Nat.eqb (k_name o) n) l) | None => false end)
+                    (seq 0 nn)).
+
+Definition atoms_of (nn : nat) (s : kstore) (e : k8s_event) : list katom :=
+  match e with
+  | KWatch (WAdded | WModified) o => [AUpsert o]
+  | KWatch WDeleted o => [ADelete o]
+  | KRelist l => relist_atoms nn s l
+  end.
 
 Section WithOracle.
 Variable O : oracle.
+(** candidate repairs: fixes/C18-F7.diff (filter / deleteRuleSet unwrap the tombstone),
+    fixes/C18-F8.diff (an update whose old and new object differ in UID unloads the old and loads the new) *)
+Variable fixed_F7 fixed_F8 : bool.
 
 Definition k_call (kind : pkind) (o : kobj) : pcall :=
   {| p_kind := kind; p_src := Sid (k_uid o);
@@ -39,9 +70,10 @@ Definition k_call (kind : pkind) (o : kobj) : pcall :=
 
 (** [addRuleSet], [updateRuleSet], [deleteRuleSet] (the status update that follows is not modelled) *)
 Definition k_add (o : kobj) : list pcall := [k_call KCreated o].
-Definition k_update (old o : kobj) : list pcall :=
-  if Nat.eqb (k_gen old) (k_gen o) then [] else [k_call KUpdated o].
 Definition k_delete (o : kobj) : list pcall := [k_call KDeleted o].
+Definition k_update (old o : kobj) : list pcall :=
+  if fixed_F8 && negb (Nat.eqb (k_uid old) (k_uid o)) then k_delete old ++ k_add o
+  else if Nat.eqb (k_gen old) (k_gen o) then [] else [k_call KUpdated o].
 
 (** cache.FilteringResourceEventHandler *)
 Definition f_add (o : kobj) : list pcall := if k_cls o then k_add o else [].
@@ -54,29 +86,49 @@ Definition f_update (old o : kobj) : list pcall :=
   end.
 Definition f_delete (o : kobj) : list pcall := if k_cls o then k_delete o else [].
 
-(** the informer: Added/Modified of a known object is an update, of an unknown
-    one an add; Deleted of an unknown object is dropped, else the handler gets
-    the object of the event *)
-Definition k8s_step (s : kstore) (e : k8s_event) : kstore * list pcall :=
-  let o := snd e in
-  match fst e with
-  | WAdded | WModified =>
-    (ks_set s (k_uid o) (Some o),
-     match s (k_uid o) with Some old => f_update old o | None => f_add o end)
-  | WDeleted =>
-    match s (k_uid o) with
-    | Some _ => (ks_set s (k_uid o) None, f_delete o)
-    | None => (s, [])
+(** one object handed to the handlers; [None] = the handler goroutine panics
+    ([filter]'s unchecked type assertion on the tombstone; client-go re-panics: the process dies) *)
+Definition k8s_atom (s : kstore) (a : katom) : kstore * option (list pcall) :=
+  match a with
+  | AUpsert o =>
+    (ks_set s (k_name o) (Some o),
+     Some match s (k_name o) with Some old => f_update old o | None => f_add o end)
+  | ADelete o =>
+    match s (k_name o) with
+    | Some _ => (ks_set s (k_name o) None, Some (f_delete o))
+    | None => (s, Some [])
+    end
+  | ATomb n =>
+    match s n with
+    | Some old => (ks_set s n None, if fixed_F7 then Some (f_delete old) else None)
+    | None => (s, Some [])
     end
   end.
 
-Fixpoint k8s_run_from (s : kstore) (h : list k8s_event) : kstore * list (list pcall) :=
-  match h with
+(** the atoms of the whole history, in order (each event's atoms are computed
+    against the store as it is when the event arrives) and what each did; the run
+    ends at the first panic *)
+Fixpoint k8s_atoms_run (s : kstore) (atoms : list katom) : kstore * list (katom * option (list pcall)) :=
+  match atoms with
   | [] => (s, [])
-  | e :: r => let sx := k8s_step s e in
-              let rr := k8s_run_from (fst sx) r in (fst rr, snd sx :: snd rr)
+  | a :: r => let sx := k8s_atom s a in
+              match snd sx with
+              | None => (fst sx, [(a, None)])
+              | Some _ => let rr := k8s_atoms_run (fst sx) r in (fst rr, (a, snd sx) :: snd rr)
+              end
   end.
 
-Definition k8s_run (h : list k8s_event) := k8s_run_from ks_empty h.
+Definition panicked (xs : list (katom * option (list pcall))) : bool :=
+  existsb (fun x => match snd x with None => true | Some _ => false end) xs.
+
+Fixpoint k8s_run_from (nn : nat) (s : kstore) (h : list k8s_event) : kstore * list (katom * option (list pcall)) :=
+  match h with
+  | [] => (s, [])
+  | e :: r => let sx := k8s_atoms_run s (atoms_of nn s e) in
+              if panicked (snd sx) then sx
+              else let rr := k8s_run_from nn (fst sx) r in (fst rr, snd sx ++ snd rr)
+  end.
+
+Definition k8s_run (nn : nat) (h : list k8s_event) := k8s_run_from nn ks_empty h.
 
 End WithOracle.
